@@ -268,6 +268,10 @@ class World:
 def build(flmod, path, cfg, hist, faults=None, fault_from=None):
     """Replay a history on a fresh world. faults: env-call indices (counted from the start of
     the op with index fault_from) at which OSError is injected."""
+    try:
+        os.unlink(path)          # pristine lock file for every replayed history
+    except FileNotFoundError:
+        pass
     w = World(flmod, path, *cfg)
     problems = []
     for i, op in enumerate(hist):
